@@ -45,7 +45,7 @@ def vector_reduction_facts(prog, name: str) -> dict:
 
 
 def fmt(facts: dict) -> str:
-    return ", ".join(f"{k}={facts.get(k)!r}" for k in ("kind", "filter", "empty", "min_count", "divisor"))
+    return ", ".join(f"{k}={facts.get(k)!r}" for k in ("kind", "filter", "empty", "min_count", "divisor") + (("square",) if "square" in facts else ()))
 
 
 def _one(gm: GroupModel, name: str) -> Tuple[Optional[Output], List[str]]:
